@@ -2140,6 +2140,7 @@ case_string:
                         /* Add backslash as well */
                         *to++ = '\\';
                         *to++ = *(outptr - 1);
+                        l--; /* two characters stored */
                         yywarn("Unknown \\ escape.");
                       }
                     break;
@@ -2152,7 +2153,7 @@ case_string:
             l = MAXLINE - (to - scr_tail);
 
             yyp = yytext;
-            while (l--)
+            while (l-- > 0)
               {
                 switch (c = *outptr++)
                   {
@@ -2264,6 +2265,7 @@ case_string:
                       default:
                         *yyp++ = '\\';
                         *yyp++ = *(outptr - 1);
+                        l--; /* two characters stored */
                       }
                     break;
 
